@@ -155,12 +155,14 @@ def _worker(args):
     for k, pos, name, s in sv[:50]:
         out["violations"].append({"kind": "state:" + name, "detail": "clause %s false at %s" % (name, pos),
                                   "replay": replay_of(k, state=s, position=pos)})
-    if prop in ("C01", "C04", "C03", "C02", "C07", "C05", "C11", "C09"):
+    if prop in ("C01", "C04", "C03", "C02", "C07", "C05", "C11", "C09", "C08", "C10", "C12"):
         # hypotheses of the C01/C04 (and C03_claims_*) theorems on the compiled initial state of every episode: fresh (C04: fresh2); for the
         # unconditional (flex) theorems also fresh2, the store clauses of wfs_b and nodep - reported when the instance
         # has unordered machine post-buffers (the class those theorems speak about)
-        init_clauses = {"C01": ["fresh"], "C04": ["fresh2"], "C03": ["claims", "nodep"], "C02": [], "C07": ["agv_phase"], "C05": [], "C11": [], "C09": []}[prop]
-        flex_hyps = ["placement", "loc", "capacity", "flags", "fresh2", "nodep"] + (["pre_ok"] if prop in ("C05", "C07") else [])
+        init_clauses = {"C01": ["fresh"], "C04": ["fresh2"], "C03": ["claims", "nodep"], "C02": [], "C07": ["agv_phase"], "C05": [], "C11": [], "C09": [],
+                        "C08": [], "C10": [], "C12": []}[prop]
+        # pre_ok: hypothesis of the theorems over the witnessed chain of applications (event clauses, release order, no-fail)
+        flex_hyps = ["placement", "loc", "capacity", "flags", "fresh2", "nodep"] + (["pre_ok"] if prop not in ("C01", "C03", "C04") else [])
         nfresh = nflex = 0
         for e in eps:
             if e.first < e.last:
@@ -458,7 +460,7 @@ def sm_check(ctx, n_quick=160, n_thorough=6000, custom_p=0.15, extra=None, worke
         ctx.coverage["steps_checked_for_success_false"] = tot["steps_checked_for_reported_failure"]
     if prop == "C20":
         ctx.coverage["step_inputs_compared_with_their_deep_copy"] = tot["step_inputs_snapshotted"]
-    if prop in ("C01", "C04", "C03", "C02", "C07", "C05", "C11", "C09"):
+    if prop in ("C01", "C04", "C03", "C02", "C07", "C05", "C11", "C09", "C08", "C10", "C12"):
         ctx.coverage["initial_states_checked_against_theorem_hypotheses"] = tot["fresh_initial_states"]
         ctx.coverage["episodes_on_instances_with_unordered_post_buffers"] = tot["flex_episodes"]
     ctx.search_note = ("monitors (extracted theorem predicates) evaluated on %d implementation states and %d micro-events of "
